@@ -290,9 +290,13 @@ func c12Eval(steps []c12Step, doc any) (any, bool) {
 type c12FilterRes struct {
 	match bool
 	value any // the value a consumer should extract (whole value, or regex match / single capture)
-	// errOK: the implementation is documented to (possibly) return an error here: pattern with more than one capture
-	// group, pattern that does not compile, object value under a filter. The reference then decides nothing.
+	// errOK: the implementation is documented to (possibly) return an error here and the verdict is not defined:
+	// pattern with more than one capture group, pattern that does not compile. The reference then decides nothing.
 	errOK bool
+	// objErr: an object met the filter. The implementation documents ErrUnsupportedFilter for that, so Match may fail
+	// with that error; but the verdict is defined: an object is not a string/number/boolean/array and equals no string,
+	// so it does not satisfy the filter (a present value that violates the filter; "optional" does not excuse it).
+	objErr bool
 }
 
 func c12JSONType(v any) string {
@@ -320,28 +324,29 @@ func c12MatchFilter(f *c12RefFilter, v any) c12FilterRes {
 	}
 	switch tv := v.(type) {
 	case map[string]any:
-		return c12FilterRes{errOK: true}
+		return c12FilterRes{objErr: true}
 	case []any:
 		// documented behaviour: an array matches when one of its elements matches; the extracted value is the array
-		anyErr := false
+		anyErr, anyObj := false, false
 		for _, e := range tv {
 			r := c12MatchFilter(f, e)
-			if r.errOK {
-				anyErr = true
-			}
-			if r.match {
-				return c12FilterRes{match: true, value: v, errOK: anyErr}
-			}
+			anyErr = anyErr || r.errOK
+			anyObj = anyObj || r.objErr
 		}
 		if anyErr {
-			return c12FilterRes{errOK: true}
+			return c12FilterRes{errOK: true, objErr: anyObj}
+		}
+		for _, e := range tv {
+			if r := c12MatchFilter(f, e); r.match {
+				return c12FilterRes{match: true, value: v, objErr: anyObj}
+			}
 		}
 		// the array itself as an instance of the schema: type array; const/enum are strings and can never equal an
 		// array; pattern only constrains strings
 		if typ == "array" && f.Const == nil && f.Enum == nil {
-			return c12FilterRes{match: true, value: v}
+			return c12FilterRes{match: true, value: v, objErr: anyObj}
 		}
-		return c12FilterRes{}
+		return c12FilterRes{objErr: anyObj}
 	}
 	// scalar
 	if f.Enum != nil {
@@ -395,6 +400,7 @@ type c12FieldRes struct {
 	match    bool
 	value    any
 	errOK    bool
+	objErr   bool
 	resolved bool // some path selected a value (used for the near-match measure)
 }
 
@@ -415,11 +421,12 @@ func c12MatchField(f *c12RefField, view any) c12FieldRes {
 			return c12FieldRes{match: true, value: v, resolved: true}
 		}
 		r := c12MatchFilter(f.filter, v)
+		res.objErr = res.objErr || r.objErr
 		if r.errOK {
-			return c12FieldRes{errOK: true, resolved: true}
+			return c12FieldRes{errOK: true, objErr: res.objErr, resolved: true}
 		}
 		if r.match {
-			return c12FieldRes{match: true, value: r.value, resolved: true}
+			return c12FieldRes{match: true, value: r.value, objErr: res.objErr, resolved: true}
 		}
 		invalid++
 	}
@@ -479,6 +486,7 @@ func c12MatchFormat(f *c12RefFormat, c c12CredFacts) bool {
 type c12Sat struct {
 	ok      bool
 	errOK   bool
+	objErr  bool           // an object met a filter somewhere: Match may fail with ErrUnsupportedFilter, the verdict stands
 	fails   int            // number of failing conditions (fields + format constraints)
 	conds   int            // number of conditions
 	values  map[string]any // field id -> extracted value (only meaningful when ok)
@@ -492,6 +500,7 @@ func (d *c12RefDef) sat(desc *c12RefDescriptor, view any, facts c12CredFacts) c1
 			f := &desc.Constraints.Fields[i]
 			s.conds++
 			r := c12MatchField(f, view)
+			s.objErr = s.objErr || r.objErr
 			if r.errOK {
 				s.errOK = true
 				continue
